@@ -12,7 +12,7 @@ VARIABLE last        \* the action just taken, with its arguments (for replay in
 
 TWOBODY == 100
 COSMIC  == 101
-RX(r, p, rn, pn, tmin, tmax, ty) == [r |-> r, p |-> p, rn |-> rn, pn |-> pn, tmin |-> tmin, tmax |-> tmax, ty |-> ty, idx |-> -1]
+RX(r, p, rn, pn, tmin, tmax, ty) == [r |-> r, p |-> p, rn |-> rn, pn |-> pn, tmin |-> tmin, tmax |-> tmax, ty |-> ty, tn |-> ty, idx |-> -1]
 Base ==
   << RX(<<1, 1>>, <<2>>, <<4, 4>>, <<5>>, -10, -10, TWOBODY),          \* 1  H + H -> H2
      RX(<<1, 1>>, <<2>>, <<4, 4>>, <<5>>, 100, 1000, TWOBODY),         \* 2  same, with a window
